@@ -7,6 +7,7 @@ import XrsVerif.Gen.ViewshedFacts
 import XrsVerif.Proofs.ILViewshedOrder
 import XrsVerif.Proofs.ILViewshedRotR
 import XrsVerif.Proofs.ILViewshedSucc
+import XrsVerif.Proofs.ILViewshedInsProg
 import Mathlib.Tactic.Positivity
 /-
   C05 -- viewshed marks a cell visible exactly when the line-of-sight model says so.
@@ -860,6 +861,31 @@ theorem generated_tree_successor (s : State F) (fuel n : Nat) (hv : VS s n) (hru
   obtain ⟨k, hk, hh⟩ := succPtr_head (s.fa "tree_vals") (s.ia "tree_nodes") i rl m rr ctx
   exact ⟨h1, k, h2.trans hk, hh⟩
 
+/-- **the generated `_insert_into_tree` up to `_rb_insert_fixup`** (PARTIAL: the fixup itself -- the recolouring loop with
+    its six inlined rotations, `ILVs.insFixup` -- is not covered): on arrays holding a non-empty BST image `t0`, with
+    `node_id` a fresh row and `value` the node `nn`, the program reaches the fixup with arrays that hold the model's
+    `leafInsert nn t0` (descent to the empty slot, creation and linking of the new red leaf, upward propagation of its
+    minimum gradient), well linked, no row twice -- hence (`leaf_insert_preserves` with no rebalancing) related to the
+    active list with the new cell added -/
+theorem generated_insert_reaches_leaf_insert (s : State (NV α)) (fuel n m : Nat) (hv : VS s n) (hm : VVal s m)
+    (hrun : s.ctl = .run) (l : Sh) (i : Nat) (rr : Sh) (hL : Linked (s.ia "tree_nodes") n (-1) (.node l i rr))
+    (hN : (Sh.node l i rr).idxs.Nodup) (hroot : s.ienv "root" = i) (nid : Nat) (hnid : nid + 1 < n)
+    (hfresh : nid ∉ (Sh.node l i rr).idxs) (hid : s.ienv "node_id" = nid)
+    (hfuel : (Sh.node l i rr).height + 1 < fuel) (t0 : Viewshed.Tree α) (nn : Node α)
+    (habs : absT (s.fa "tree_vals") (s.ia "tree_nodes") (.node l i rr) = mapT emb t0) (hval : valNode s = mapN emb nn) :
+    let sh' := insShape (s.fa "tree_vals") (valAt s 0) (.node l i rr) nid
+    ∃ sP : State (NV α), Gen.IL.vsInsert.run s fuel = exec fuel insFixup sP ∧ sP.ctl = .run ∧
+      Linked (sP.ia "tree_nodes") n (-1) sh' ∧ sh'.idxs.Nodup ∧
+      absT (sP.fa "tree_vals") (sP.ia "tree_nodes") sh' = mapT emb (leafInsert nn t0) ∧
+      sP.ienv "inserted" = nid ∧
+      (∀ (S : α) (d : Node α) (st : List (Node α)), Rel S d t0 st → nn.key ≠ d.key → (∀ k ∈ st, k.key ≠ nn.key) →
+        Rel S d (leafInsert nn t0) (nn :: st)) := by
+  obtain ⟨sP, h1, h2, _, h4, h5, h6, h7, _, _⟩ :=
+    vsInsert_prefix_refines s fuel n m hv hm hrun l i rr hL hN hroot nid hnid hfresh hid hfuel
+  refine ⟨sP, h1, h2, h4, h5, ?_, h7, fun S d st hr hd hf => leaf_insert_preserves nn hr hd hf (Rebal.refl _)⟩
+  rw [h6, habs, hval, insCoreC_emb, (insCoreC_eq nn t0).1]
+  rfl
+
 /-! non-vacuity: a concrete state holding the three-node tree of the example after `query_decides` (rows 0 = the root
     with key 2, 1 = key 1, 2 = key 3, 3 = NIL); the generated query at key 3 returns 2, the gradient of the node
     with key 1 found by the exact walk; the left rotation at the root applies -/
@@ -902,6 +928,29 @@ example [Trig ℚ] :
   have h := (generated_rotations_are_model_rotations exState 0 4 exState_holds.vs rfl (.node .nil 1 .nil) 0 .nil 2 .nil
     (-1)).1 exState_holds.linked (by decide) rfl (Or.inl rfl)
   exact ⟨h.1, by simpa using h.2.2.2, h.2.1⟩
+
+/-- the same tree in five rows (row 3 free, row 4 = NIL) with a new node of key 4 in `value` -/
+def exVals5 : List (NV ℚ) :=
+  ([2, 1, 1, 1, 0, 1, 2, 1,   1, 2, 2, 2, 0, 1, 2, 2,   3, 0, 0, 0, 0, 1, 2, 0,   0, 0, 0, 0, 0, 0, 0, 0,
+    0, 0, 0, 0, 0, 0, 0, -10000000000000000000000] : List ℚ).map some
+def exNodes5 : List Int := [1, 1, 2, -1,   0, -1, -1, 0,   0, -1, -1, 0,   0, 0, 0, 0,   1, -1, -1, -1]
+def exStateIns [Trig ℚ] : State (NV ℚ) :=
+  { State.empty with
+    fa := fun a => if a = "tree_vals" then exVals5 else if a = "value" then ([4, 3, 3, 3, 0, 1, 2, 0] : List ℚ).map some else [],
+    ia := fun a => if a = "tree_nodes" then exNodes5 else [],
+    shp := fun a => if a = "tree_vals" then [5, 8] else if a = "tree_nodes" then [5, 4] else if a = "value" then [8] else [],
+    ienv := fun v => if v = "node_id" then 3 else 0 }
+
+example [Trig ℚ] : ∃ sP : State (NV ℚ), Gen.IL.vsInsert.run exStateIns 4 = exec 4 insFixup sP ∧ sP.ctl = .run ∧
+    absT (sP.fa "tree_vals") (sP.ia "tree_nodes") (insShape exVals5 (valAt exStateIns 0) exShape 3) =
+      mapT emb (leafInsert ⟨4, 3, 3, 3, 0, 1, 2⟩ exTree) := by
+  obtain ⟨sP, h1, h2, _, _, h5, _⟩ := generated_insert_reaches_leaf_insert exStateIns 4 5 8
+    ⟨rfl, rfl, rfl, rfl, by decide⟩ ⟨rfl, rfl, by decide⟩ rfl (.node .nil 1 .nil) 0 (.node .nil 2 .nil)
+    (by simp [Linked, nAt, exStateIns, exNodes5, Sh.ptr]) (by decide) rfl 3 (by decide) (by decide) rfl (by decide)
+    exTree ⟨4, 3, 3, 3, 0, 1, 2⟩
+    (by simp [absT, nodeAt, vAt, nAt, mapT, mapN, emb, exStateIns, exVals5, exNodes5, exTree])
+    (by simp [valNode, valAt, mapN, emb, exStateIns])
+  exact ⟨sP, h1, h2, h5⟩
 
 end Generated
 
